@@ -305,3 +305,110 @@ _run_c24b = run
 def run(ctx):  # noqa: F811
     _run_c24b(ctx)
     r24_4(ctx, ctx.model)
+
+
+def r24_5(ctx, m):
+    from ..util import cfg_of, find_nodes
+    fi = m.func(MOD, "optimize_kl")
+    ctx.saw_func(fi)
+    cfg = cfg_of(fi)
+    loads = [n for n, c in find_nodes(cfg, lambda q: isinstance(q, ast.Call) and src(q.func) == "pickle.load")]
+    ctx.rule("R24.5", "resume ignores `position_or_samples` in favour of the saved state (documented): no statement reachable from the "
+                      "un-pickling of the checkpoint reads that argument - a resumed run called with the same arguments as the original "
+                      "one (a position OR a Samples object) must not depend on which of the two it was", floor=1)
+    key = f"{fi.key}::no read of position_or_samples after the checkpoint was loaded"
+    if len(loads) != 1:
+        ctx.und("R24.5", key, f"{len(loads)} pickle.load sites", fi)
+        return
+    ld = loads[0]
+    reach = cfg.reachable_after(ld.id, include_exc=False)
+    # statements of the resume branch only: nodes dominated by the load (the non-resume path does not pass the load)
+    dom = cfg.dominators()
+    reads = []
+    for nid in sorted(reach):
+        n = cfg.nodes[nid]
+        if n.ast is None or ld.id not in dom.get(nid, ()):
+            continue
+        roots = [n.ast] if n.kind in ("stmt", "test") else []
+        for r in roots:
+            for x in ast.walk(r) if not isinstance(r, (ast.FunctionDef,)) else []:
+                if isinstance(x, ast.Name) and x.id == "position_or_samples" and isinstance(x.ctx, ast.Load):
+                    reads.append((n, x))
+    ctx.check("R24.5", key, not reads, f"`{short(reads[0][0].ast, 90)}` reads the argument on the resume path" if reads else None, fi, reads[0][0].ast if reads else None)
+    ctx.rule("R24.6", "every return of optimize_kl that is reachable after loading a checkpoint has passed the statement that "
+                      "re-attaches the configuration stripped at write time (`_replace(config=<fresh config>)`): a resumed run returns "
+                      "the same state object as an uninterrupted one, also when nothing is left to do", floor=1)
+    reatt = [n for n, c in find_nodes(cfg, lambda q: isinstance(q, ast.Call) and call_name(q) == "_replace" and any(k.arg == "config" and src(k.value) not in ("{}", "dict()") for k in q.keywords))
+             if ld.id in dom.get(n.id, ()) or n.id in reach]
+    rets = [n for n in cfg.nodes if n.kind == "stmt" and isinstance(n.ast, ast.Return) and n.id in reach]
+    key = f"{fi.key}::config re-attached before every return on the resume path"
+    if not reatt or not rets:
+        ctx.und("R24.6", key, f"{len(reatt)} re-attachments, {len(rets)} returns", fi)
+    else:
+        ra = {n.id for n in reatt}
+        # the re-attachment may sit under "the loaded config is empty" (the writer stores {}): passing that test is as good
+        for n in cfg.nodes:
+            if n.kind == "test" and n.ast is not None and "config" in src(n.ast):
+                import re as _re
+                t_ = src(n.ast).replace(" ", "")
+                names_ = {src(r_.ast.targets[0]) for r_ in reatt if isinstance(r_.ast, ast.Assign)}
+                for nm_ in names_:
+                    if t_ in (f"len({nm_}.config)==0", f"not{nm_}.config", f"{nm_}.config=={{}}", f"0==len({nm_}.config)"):
+                        ra.add(n.id)
+        bad = [r for r in rets if r.id in cfg.reachable_after(ld.id, avoid=ra, include_exc=False)]
+        ctx.check("R24.6", key, not bad, f"`{short(bad[0].ast, 60)}` (line {bad[0].ast.lineno}) is reachable from the load without passing `{short(reatt[0].ast, 60)}`" if bad else None,
+                  fi, bad[0].ast if bad else reatt[0].ast)
+    ctx.rule("R24.7", "the objects inside the checkpoint (Samples, OptimizeVIState) are pickled attribute by attribute: a custom "
+                      "__getstate__/__reduce__ maps every stored name to the attribute of the same name (a derived quantity such as "
+                      "position + residuals stored under the residuals' name corrupts every loaded state)", floor=2)
+    for modn, cn in (("nifty.re.evi", "Samples"), (MOD, "OptimizeVIState")):
+        C = m.cls(modn, cn, required=False)
+        if C is None:
+            ctx.und("R24.7", f"{modn}::{cn}", "class missing", modn)
+            continue
+        ctx.saw_class(C)
+        custom = [n_ for n_ in ("__getstate__", "__reduce__", "__reduce_ex__", "__setstate__") if n_ in C.methods]
+        key = f"{C.key}::pickled state is the attribute dictionary"
+        if not custom:
+            ctx.ok("R24.7", key, "default pickling", C)
+            continue
+        gs = C.methods.get("__getstate__")
+        if gs is None:
+            ctx.und("R24.7", key, f"custom {custom} not modelled", C)
+            continue
+        ctx.saw_func(gs)
+        loc = {src(st.targets[0]): st.value for st in walk_no_nested(gs.node) if isinstance(st, ast.Assign) and isinstance(st.targets[0], ast.Name)}
+        pairs = []
+        for d in ast.walk(gs.node):
+            if isinstance(d, ast.Call) and src(d.func) == "dict":
+                pairs += [(k.arg, k.value) for k in d.keywords if k.arg]
+            elif isinstance(d, ast.Dict):
+                pairs += [(k.value, v) for k, v in zip(d.keys, d.values) if isinstance(k, ast.Constant)]
+        badp = []
+        for k, v in pairs:
+            e = v
+            seen = 0
+            while isinstance(e, ast.Name) and e.id in loc and seen < 4:
+                e = loc[e.id]
+                seen += 1
+            if isinstance(e, ast.IfExp):
+                alts = [e.body, e.orelse]
+            else:
+                alts = [e]
+            for a in alts:
+                if src(a) in ("None",):
+                    continue
+                if src(a) != f"self.{k}":
+                    badp.append((k, src(a)))
+        if not pairs:
+            ctx.und("R24.7", key, "state mapping not found", gs)
+        else:
+            ctx.check("R24.7", key, not badp, f"`{badp[0][0]}` is stored as `{badp[0][1]}`, not as self.{badp[0][0]}" if badp else None, gs)
+
+
+_run_c24c = run
+
+
+def run(ctx):  # noqa: F811
+    _run_c24c(ctx)
+    r24_5(ctx, ctx.model)
